@@ -23,5 +23,8 @@ def run():
     fslookup.build_nowat()
     cli.artefacts("quick")
     cli.build_wac()
+    from . import types, agg
+    types.artefacts("quick")
+    agg.artefacts("quick")
     log("[setup] done")
     return 0
